@@ -118,6 +118,8 @@ type Machine struct {
 	InitPrefixes []string
 	RecordEvents bool
 	trackCell map[*value]bool
+	trackMap map[*Map]bool
+	RaceQueries int
 	clockReads int
 	onceDone map[*value]bool
 	wgCount map[*value]int
@@ -191,6 +193,9 @@ func (m *Machine) setCell(p *value, v value) {
 	}
 	if m.freezeOn && m.frozen[p] {
 		m.violation("write-to-frozen", "store into an object that existed before vxFreeze")
+	}
+	if m.RecordEvents {
+		m.memEvent("wr", p)
 	}
 	if !m.noUndo {
 		m.undo = append(m.undo, undoRec{p: p, old: *p})
@@ -281,6 +286,9 @@ func (m *Machine) load(t types.Type, p value) value {
 	case *value:
 		if p == nil {
 			m.goPanic("runtime error: invalid memory address or nil pointer dereference")
+		}
+		if m.RecordEvents {
+			m.memEvent("rd", p)
 		}
 		return copyVal(*p)
 	case *idxPtr:
@@ -983,6 +991,7 @@ func (m *Machine) RunPath(entry *ssa.Function, it Item) (kind, reason string) {
 	m.Emitted = nil
 	m.RecordEvents = false
 	m.trackCell = nil
+	m.trackMap = nil
 	m.clockReads = 0
 	md := it.Model
 	if md == nil {
